@@ -215,7 +215,7 @@ def run(ctx):
     good = [r for r in recs if ver[r['id']]['ok'] and r['lattice_circle'] and len(r['w']) > 1][:4]
     bad = []
     for k, r in enumerate(good):
-        r2 = json.loads(json.dumps(r)); r2['id'] = 10**9 + k
+        r2 = core.jcopy(r); r2['id'] = 10**9 + k
         r2['w'][0][0] = 40000 if r2['w'][0][0] < 20000 else 0
         r2['sum_k'] = r2['area_k']
         bad.append(r2)
